@@ -1183,6 +1183,9 @@ impl<D: DependencyProvider, RT: AsyncRuntime> Solver<D, RT> {
             }
         }
 
+        #[cfg(feature = "verif-hooks")]
+        self.verif_observe();
+
         Ok(())
     }
 
